@@ -8,8 +8,8 @@ environment events) and hold for EVERY initial buffer state, traffic still to co
 thread steps and interleaved environment events (peer closes, stops/resumes reading, keep-alive
 expiry, the connection a delivery is addressed to blocks/unblocks, `Server.Close`).
 `WF c` fixes the code as it is: repaired ring (the contract of C15 — DERIVED from the ring program, not assumed:
-`C16_ring_contract_is_C15`, `C16_ring_steps_use_ringA`, `C16_out_ring_one_producer`, at the end of this file; where the
-abstraction `RingA` is stronger than the ring — `done` and the cursors are tested in one step — is said there), `stop()` in the order of
+`C16_ring_contract_is_C15`, `C16_ring_steps_use_ringA`, `C16_out_ring_one_producer`, at the end of this file; exact since the
+repair of finding F9 up to the window between a producer's last `isDone` test and its cursor store, named there), `stop()` in the order of
 service.go, a receiver that closes the socket when its read has failed (repair b77088f, finding F7)
 and a `ReadFrom` that waits only while the incoming ring is completely full and reads into the free
 space (repair 8f682d1, finding F3) — regenerated: `C16_source_shape` —, a ring that holds a packet header.
@@ -541,8 +541,9 @@ theorem C16_no_foreign_panic (c : Cfg) (hw : WF c) (s0 : St) (h0 : Init c s0) (s
   obtain ⟨hi, hn⟩ := C16_invariant c hw s0 h0 sched
   exact ⟨hi.k.nil, hn⟩
 
-/-- **(d) a late delivery fails fast.**  (About ring calls that START after the close; for a writer already inside
-`WriteWait`/`WriteCommit` when the ring is closed see `C16_ring_contract_is_C15`, "where `RingA` is stronger".)
+/-- **(d) a late delivery fails fast.**  (At ring level — `C16_ring_contract_is_C15`, `producer` (2): once `done` is set, every
+`WriteWait`/`WriteCommit`/`Write` that has not yet passed its last `isDone` test returns end-of-stream, whether it starts later,
+is parked, or is in progress; the exception is a call between that test and its cursor store, `C15_commit_window`.)
 Once the outgoing ring is closed (by `stop()`, by the
 sender's deferred Close, by `Server.Close`), a writer past the lock is enabled and its step returns
 end-of-stream without committing anything and releases `wmu`; a writer at the nil test is enabled; a
@@ -576,13 +577,14 @@ of the ring program, with `absRing s = (pseq - cseq, done)` and `ringCfg` = the 
               `RingA.commitC` (-n, by the consumer only, `n ≤ buf` before it), `RingA.close`, or invisible — (b) EFFECT;
 * `producer`  a complete `WriteWait(l)` / `WriteCommit(l)` / `Write(l)` under any interleaving (`pstep .ownWait/.ownCommit`,
               `wstep .wait/.commit`): its outcome is the answer of `RingA.waitSpace` / `RingA.commitP` at its linearisation
-              point — `full` iff `cap < l`; end-of-stream only with `done` set; `ok` only if the ring was open when the call
-              started and, for the committing calls, exactly one own step adds exactly `l`, with `buf + l ≤ cap` before it —
-              (a) ENABLEDNESS, (b); and when nothing can run the call is unfinished iff the producer is parked in it and
-              `RingA.waitSpace … l = none` — (c) BLOCKING = NOT ENABLED;
+              point — `full` iff `cap < l`; end-of-stream only with `done` set; `ok` only if ONE own step (the last `isDone`
+              test) IS `RingA.waitSpace … l = ok`: ring open and `buf + l ≤ cap` in the same state; for the committing calls a
+              later own step adds exactly `l`, with `buf + l ≤ cap` before it — (a) ENABLEDNESS, (b); once `done` is set a call not
+              yet past that test does not succeed — (d); and when nothing can run the call is unfinished iff the producer is parked
+              in it and `RingA.waitSpace … l = none` — (c) BLOCKING = NOT ENABLED;
 * `consumer`  the same for `ReadWait(n)` / `ReadPeek(n)` (`pstep .size/.msg`, `sstep .peek`; no effect; `ok` with the bytes
-              buffered from then on — also on a closed ring —, end-of-stream only with `done` set and too few bytes when the
-              call looked) and `ReadCommit(n)` (`pstep .commit`, `sstep .commit`: IS `RingA.commitC`, never waits);
+              buffered from then on — also on a closed ring —, end-of-stream only if ONE own step IS `RingA.waitData … = eof`:
+              `done` set and too few bytes in the same state) and `ReadCommit(n)` (`pstep .commit`, `sstep .commit`: IS `RingA.commitC`, never waits);
 * `close`     `Close()` (`rstep/sstep .close`, `execStop .inClose/.outClose`, `estep .preClose`) returns `ok`, its first
               statement IS `RingA.close`, it never waits, and once `done` is set no call stays unfinished when nothing can
               run: every parked call has returned — (d) CLOSE;
@@ -592,17 +594,18 @@ of the ring program, with `absRing s = (pseq - cseq, done)` and `ringCfg` = the 
               parked only while `RingA.waitSpace … 1 = none` (ring open and completely full);
 * `quiescent` thread by thread, a state in which nothing can run.
 
-WHERE `RingA` IS STRONGER THAN THE RING.  `RingA.waitSpace/commitP/waitData` test `done` and the cursors in ONE step; the ring
-tests them at two statements of the call.  The equations therefore carry `asOpen` / `asClosed` (the `done` flag as the call
-saw it): a producer call that passed its `isDone` test — or was woken by `Close` and finds space — commits although the ring
-has been closed meanwhile (`C15_ringA_gap_late_commit`), and `ReadWait` answers end-of-stream although the bytes were
-committed between its cursor test and its `done` test (`C15_ringA_gap_eof_with_data`).  Consequences for THIS file: the
-reachable states of the model do not include a ring whose `buf` grows after `done` (a late commit into a closed ring, which
-nobody reads any more: the sender leaves at its next `isDone`, the processor has left or leaves at its next end-of-stream);
-`C16_late_delivery_fails_fast`, second conjunct, is about a writer whose ring call STARTS after the close (then it does fail
-at once: `producer`, `ok → done = false at the start`) — a writer already inside `WriteWait`/`WriteCommit` may instead commit
-and return `ok`.  No conclusion of the teardown theorems mentions ring contents; their robustness against these two
-interleavings is argued in NOTES-ringlife.md, not proved (the model is frozen). -/
+`done` VERSUS THE CURSORS (finding F9, repaired in buffer.go; NOTES-f9.md).  `RingA.waitSpace/commitP/waitData` test `done` and the
+cursors in ONE step; the ring tested them at two statements of a wait loop, so that a producer woken by `Close` could still
+commit and a consumer could answer end-of-stream with the bytes there (`C15_old_ring_late_commit`, `C15_old_ring_eof_with_data`:
+the ring before the repair).  With the repaired ring the contract is EXACT where the model needs it: a consumer's
+end-of-stream IS `RingA.waitData … = eof` and a producer's successful `waitForWriteSpace` IS `RingA.waitSpace … = ok` on
+`absRing` of ONE state of the call (`consumer` (A), `producer` (1)); and `Close` makes every producer call that has not yet
+passed its last `isDone` test — not started, parked, woken, anywhere in `waitForWriteSpace` — fail (`producer` (2)): that is the
+ring-level content of `C16_late_delivery_fails_fast` for calls already in progress.  What is left, and not in the model: a
+committing call stores the cursor a few statements after that last test (for `Write` the byte copy lies in between); `Close` in
+that window lets the commit land in a closed ring (`C15_commit_window`).  Nobody reads those bytes from an outgoing ring (the
+sender leaves at its next `isDone`); on an incoming ring the closers are the producer itself — after its last commit — and
+`stop()`, i.e. the teardown the commit then races.  No conclusion of the teardown theorems mentions ring contents. -/
 theorem C16_ring_contract_is_C15 (cfg : Mqtt.Model.Ring.Cfg) (adv gate : Nat)
     (progP progC : List Mqtt.Iface.Ring.Call) (progsK : List (List Mqtt.Iface.Ring.Call))
     (hgate : gate ≤ adv) (hok : Mqtt.Proofs.Ring.ProgsOK progP progC progsK) (sched0 : List Mqtt.Iface.Ring.Tid) :
